@@ -34,7 +34,7 @@ ASSUMPTIONS = [
     "mounts files without NUL bytes for the exact comparison (a NUL makes glibc's getmntent drop the rest of the line and the next line); NUL/garbage files are still fed under the no-crash oracle",
 ]
 MANIFEST = {
-    "level_text": "PARTIAL. Machine-checked Lean 4 theorems over a byte-level MODEL of the extension's decoders and bounds logic: C17_users_fields_cut (users() over every utmp file = the USER_PROCESS records with user/terminal/host cut at the first NUL or at the field width, ':0'/':0.0' as localhost, start time, PID) and C17_users_read_in_record (every string read stays inside the 384-byte record) for the size-bounded decode, both DISPROVED for the unbounded PyUnicode_DecodeFSDefault decode by the full-width record (lead L14: 341-char name); C17_filesystems_parse + C17_partitions_filter (+ _kept_iff, _all); C17_strncpy_terminated; C17_mac_fits; C17_affinity_no_overflow (loop never multiplies past INT_MAX and terminates, any kernel answers); C17_cpuset_in_bounds / C17_affinity_set_in_bounds (CPU_SET on any C long); C17_pid_range; C17_ioprio_no_overflow, C17_ioprio_entry_defined, C17_ioprio_reach (no ioclass reaches an undefined shift once a range check exists; counterexample ionice(2**18, 0) without it, lead L15); C17_iff_table / C17_iff_flag_names / C17_iff_documented. Which variant the source uses is re-extracted on every run (regex over users.c, proc.c, _psutil_common.h, _psutil_posix.c; ast over _pslinux.py) and feeds the proof obligations ucfg_good … icfg_safe. Memory safety of the COMPILED C is NOT proved: it is supported by a differential run of the real extension in sub-processes — crafted utmp files via utmpname(), crafted mounts/filesystems files, a sched_getaffinity EINVAL shim, exhaustive ioprio/pid edge grids and an argument fuzzer over every entry point — compared with the model's decoding, where a crash, hang or sanitizer report is a violation; the thorough tier repeats it on a clang -fsanitize=address,undefined build. That part is testing. EXTENSION ROUND (Model/C17Ext.lean, 22 more theorems): C17_ifaddrs_rows (net_if_addrs over every getifaddrs() list honouring libc's object contract = getifaddrs(3)'s reading: broadcast iff IFF_BROADCAST, ptp iff IFF_POINTOPOINT and not broadcast, NULL / unshowable addresses dropped) and C17_ifaddrs_reads_in_object; C17_ifr_name_bounded (the NIC name reaches ifr_name[IFNAMSIZ] cut to 15 bytes and terminated, for the four ifreq entry points) and C17_ifr_running; C17_mntent_line_whole (every mounts line of up to 4095 bytes reaches the field decoder whole when the getmntent buffer in effect is >= 4096; the 1024-byte getmntent_r buffer of seeded change C17-1 is the proved counterexample) and C17_mntent_tuple (the render->decode round trip of the fields is stated, C17_mntent_roundtrip_Full, but only tested); C17_sysinfo_tuple (every Py_BuildValue unit of linux_sysinfo matches the width of its struct sysinfo member: no truncation for any value); C17_getpriority_errno_independent (with errno cleared before getpriority(2) the result is the kernel's answer for EVERY errno value on entry; counterexample without the reset = seeded C18-1) plus the obligation that no other Linux entry point uses errno as a discriminator. These are tied to the real code by an LD_PRELOAD shim that scripts getifaddrs(), the SIOCGIF*/SIOCETHTOOL ioctls (logging the ifr_name bytes each call carried) and sysinfo(), by nice values set on a sacrificial child, and by a stale errno poisoned into the thread's errno before every fuzzed call.",
+    "level_text": "PARTIAL. Machine-checked Lean 4 theorems over a byte-level MODEL of the extension's decoders and bounds logic: C17_users_fields_cut (users() over every utmp file = the USER_PROCESS records with user/terminal/host cut at the first NUL or at the field width, ':0'/':0.0' as localhost, start time, PID) and C17_users_read_in_record (every string read stays inside the 384-byte record) for the size-bounded decode, both DISPROVED for the unbounded PyUnicode_DecodeFSDefault decode by the full-width record (lead L14: 341-char name; the code as found, fixed in /repo by a15d2eb); C17_filesystems_parse + C17_partitions_filter (+ _kept_iff, _all); C17_strncpy_terminated; C17_mac_fits; C17_affinity_no_overflow (loop never multiplies past INT_MAX and terminates, any kernel answers); C17_cpuset_in_bounds / C17_affinity_set_in_bounds (CPU_SET on any C long); C17_pid_range; C17_ioprio_no_overflow, C17_ioprio_entry_defined, C17_ioprio_reach (no ioclass reaches an undefined shift once a range check exists; counterexample ionice(2**18, 0) without it, lead L15, fixed in /repo by f6216f8); C17_iff_table / C17_iff_flag_names / C17_iff_documented. Which variant the source uses is re-extracted on every run (regex over users.c, proc.c, _psutil_common.h, _psutil_posix.c; ast over _pslinux.py) and feeds the proof obligations ucfg_good … icfg_safe. Memory safety of the COMPILED C is NOT proved: it is supported by a differential run of the real extension in sub-processes — crafted utmp files via utmpname(), crafted mounts/filesystems files, a sched_getaffinity EINVAL shim, exhaustive ioprio/pid edge grids and an argument fuzzer over every entry point — compared with the model's decoding, where a crash, hang or sanitizer report is a violation; the thorough tier repeats it on a clang -fsanitize=address,undefined build. That part is testing. EXTENSION ROUND (Model/C17Ext.lean, 22 more theorems): C17_ifaddrs_rows (net_if_addrs over every getifaddrs() list honouring libc's object contract = getifaddrs(3)'s reading: broadcast iff IFF_BROADCAST, ptp iff IFF_POINTOPOINT and not broadcast, NULL / unshowable addresses dropped) and C17_ifaddrs_reads_in_object; C17_ifr_name_bounded (the NIC name reaches ifr_name[IFNAMSIZ] cut to 15 bytes and terminated, for the four ifreq entry points) and C17_ifr_running; C17_mntent_line_whole (every mounts line of up to 4095 bytes reaches the field decoder whole when the getmntent buffer in effect is >= 4096; the 1024-byte getmntent_r buffer of seeded change C17-1 is the proved counterexample) and C17_mntent_tuple (the render->decode round trip of the fields is stated, C17_mntent_roundtrip_Full, but only tested); C17_sysinfo_tuple (every Py_BuildValue unit of linux_sysinfo matches the width of its struct sysinfo member: no truncation for any value); C17_getpriority_errno_independent (with errno cleared before getpriority(2) the result is the kernel's answer for EVERY errno value on entry; counterexample without the reset = seeded C18-1) plus the obligation that no other Linux entry point uses errno as a discriminator. These are tied to the real code by an LD_PRELOAD shim that scripts getifaddrs(), the SIOCGIF*/SIOCETHTOOL ioctls (logging the ifr_name bytes each call carried) and sysinfo(), by nice values set on a sacrificial child, and by a stale errno poisoned into the thread's errno before every fuzzed call.",
     "level_note": "Trusted: Lean kernel + {propext, Classical.choice, Quot.sound}; regex/ast translator; glibc/CPython semantics re-implemented in the harness (getmntent decoding, PyArg format units); the struct utmp layout; sanitizer coverage is only as good as the inputs explored. net_if_addrs()/net_if_stats() vs /sys/class/net and socket.if_nameindex() on the live interfaces is a supporting check (the sandbox has 4 NICs). Extension round: getnameinfo's numeric text is an oracle of the model (independent rendering in the harness); socket struct sizes and C type widths are ABI tables in the translator; libc's getmntent line buffer (4096) is MEASURED by a probe at translation time; the getifaddrs shim replaces the kernel, so libc's allocation contract for the sockaddr objects (Spec.SockWF) is an assumption.",
     "technique": "Lean 4 proofs over byte-level decoder/bounds models + translator-fed proof obligations + sub-process differential testing of the compiled extension (ASan+UBSan in the thorough tier)",
     "design_ref": "DESIGN.md §5 C17",
